@@ -28,4 +28,7 @@ def run(ctx) -> None:
     for name, fn in (("D1", presence.rule_D1), ("D2", presence.rule_D2), ("D3", presence.rule_D3), ("D4", presence.rule_D4), ("D5", presence.rule_D5), ("T5", codec.rule_T5), ("V7", presence.rule_V7), ("D6", presence.rule_D6), ("D7", presence.rule_D7), ("D8", presence.rule_D8), ("O2", presence.rule_O2), ("U2b", _u2b), ("V10", _v10)):
         ctx.rules_run.append(name)
         fn(ctx)
+    from . import jsonrules
+    ctx.rules_run.append("J4")
+    jsonrules.rule_J4(ctx)      # the dict / JSON load sets whatever is named with a non-null value, also at its default ({} / 0 / "")
     ctx.oracle("proto3 field presence table (embedded): implicit fields skip the default; optional / oneof / wrapper / message presence is explicit")
